@@ -31,6 +31,20 @@ def _alarm(signum, frame):
     raise RunTimeout()
 
 
+def _clear_registries():
+    """ioflo keeps every Store / Tasker / Framer / Log ... ever created in class-level registries (Registrar.Names).
+    A worker executing hundreds of thousands of runs would grow by about 10 KB per run and finally hit the address-space
+    cap, which would then be misread as runaway allocation in the code under test.  Every run starts and ends with empty
+    registries; this also makes automatically generated names independent of the runs executed before."""
+    from ioflo.base import registering
+    todo = [registering.Registrar]
+    while todo:
+        c = todo.pop()
+        todo.extend(c.__subclasses__())
+        if "Names" in c.__dict__:      # a class that shares its parent's registry must keep sharing it
+            c.Clear()
+
+
 def timed_execute(check, plan, _retry=True):
     """check.execute under a CPU-time watchdog and an address-space cap; a run that exceeds either is reported as a
     violation (kind 'hang' / 'memory'), not as a harness error.  The watchdog counts the process's own CPU time
@@ -46,11 +60,21 @@ def timed_execute(check, plan, _retry=True):
     signal.setitimer(signal.ITIMER_PROF, limit)
     why = None
     soft, hard = resource.getrlimit(resource.RLIMIT_AS)
-    cap = MEM_CAP if hard == resource.RLIM_INFINITY else min(MEM_CAP, hard)
+    try:    # the cap is room on top of what the worker already uses, so a long-lived worker cannot run into it by age alone
+        with open("/proc/self/statm") as f:
+            cur = int(f.read().split()[0]) * resource.getpagesize()
+    except Exception:
+        cur = 0
+    cap = cur + MEM_CAP
+    cap = cap if hard == resource.RLIM_INFINITY else min(cap, hard)
     try:
         # a runaway loop in the code under test must end in MemoryError / the watchdog, not in the OOM killer
         resource.setrlimit(resource.RLIMIT_AS, (cap, hard))
-        return check.execute(plan)
+        _clear_registries()
+        try:
+            return check.execute(plan)
+        finally:
+            _clear_registries()
     except MemoryError:
         why = "memory"
     except RunTimeout:
@@ -65,7 +89,7 @@ def timed_execute(check, plan, _retry=True):
         return timed_execute(check, plan, _retry=False)
     out = Outcome()
     if why == "memory":
-        out.violate("memory", "run exhausted the 1.2 GB address-space cap (runaway allocation in the code under test)", "MemoryError")
+        out.violate("memory", "run allocated more than 1.2 GB (runaway allocation in the code under test)", "MemoryError")
     else:
         out.violate("hang", "run did not finish within %ds of CPU time (simulated steps are bounded, so the code under test loops)" % limit,
                     "plan executed for more than %d s of CPU time, twice" % limit)
